@@ -39,6 +39,10 @@ MUT = {
     # narrow glue policy: the child zone of the referral is compared with the delegation owner octet-wise (case-sensitively)
     "narrow_child_cmp_octets": (V, "if referral.child_zone.as_ref() == child_zone {",
                                 "if referral.child_zone.wire_repr() == child_zone.wire_repr() {"),
+    # Label's Hash becomes case-sensitive while Eq stays case-insensitive: a name spelled in another letter case is (almost always) not
+    # found in the children maps — glue / addresses owned by `ns.c.` are not found for the NSDNAME `NS.C.`
+    "label_hash_case_sensitive": ("src/name/label.rs", "for octet in self.octets().iter().map(u8::to_ascii_lowercase) {",
+                                  "for octet in self.octets().iter().copied() {"),
     # an unparsable apex NS RDATA is skipped instead of failing the validation
     "valid_apex_ns_skip_bad": (V, "let name =\n                    Name::try_from_uncompressed_all(rdata.octets()).or(Err(Error::InvalidRdata))?;",
                                "let name = match Name::try_from_uncompressed_all(rdata.octets()) { Ok(n) => n, Err(_) => continue };"),
